@@ -1316,4 +1316,114 @@ example : ∃ a b, ((⟨1, 2, some (⟨1, 2⟩, ⟨4, 6⟩)⟩ : Tether ℝ).wit
     a.y = b.y ∧ a.x < b.x ∧ b.x - a.x = Real.sqrt ((0 - 0) * (0 - 0) + (2 - 0) * (2 - 0)) :=
   retether_horizontal_length _ (⟨1, 2⟩, ⟨4, 6⟩) rfl (Or.inl (by norm_num)) ⟨0, 0⟩ ⟨0, 2⟩ (Or.inr (by norm_num))
 
+
+/-! ## The hypotheses of the theorems hold for every reachable stack -/
+
+theorem good_init (pages : List Page) (H W : Nat) (hH : 0 < H) (hW : 0 < W) :
+    Stack.Good ⟨0, pages.length, 1, ⟨0, W, 0, H⟩⟩ H W pages := by
+  refine ⟨by show (0 : Int) < 1; omega, ?_, fresh_paged pages _⟩
+  unfold Roi.Within
+  simp only
+  omega
+
+theorem good_frameItem (s s' : Stack) (H W : Nat) (pages : List Page) (hg : s.Good H W pages) (f : Item)
+    (h : s.frameItem f = .ok s') : s'.Good H W pages := by
+  obtain ⟨hst, hr, hp⟩ := hg
+  have hroi := frames_preserve_roi s s' f h
+  have hst' := (step_positive_preserved s s' hst).1 f h
+  refine ⟨hst', by rw [hroi]; exact hr, ?_⟩
+  cases f with
+  | int i =>
+    exact (ranges_index_refines s s' hst pages hp i h false).choose_spec.choose_spec.2.2.2
+  | slice a b c =>
+    simp only [Stack.frameItem] at h
+    rcases Int.lt_trichotomy (c.getD 1) 0 with hc | hc | hc
+    · rcases slice_negative_step s hst a b c hc with h' | h' <;> rw [h'] at h <;> cases h
+    · unfold Stack.sliceFrames at h
+      simp only [hc, if_true] at h
+      cases h
+    · exact (ranges_slice_refines s s' hst pages hp a b c hc h false).choose_spec.2.2
+
+theorem good_crop (s s' : Stack) (H W : Nat) (pages : List Page) (hg : s.Good H W pages) (x0 x1 y0 y1 : Option Int)
+    (h : s.cropPixels x0 x1 y0 y1 = .ok s') : s'.Good H W pages := by
+  obtain ⟨hst, hr, hp⟩ := hg
+  have hf := crop_preserves_frames s s' x0 x1 y0 y1 h
+  refine ⟨by rw [hf.2.2.2]; exact hst, ?_, (crop_preserves_ranges s s' pages x0 x1 y0 y1 h false false).2.2.2.2 hp⟩
+  have href := roi_crop_refines (List.replicate H (List.replicate W ())) H W (by simp)
+    (by intro row hrow; rw [List.eq_of_mem_replicate hrow]; simp) s.roi hr x0 x1 y0 y1
+  unfold Stack.cropPixels at h
+  cases hc : s.roi.crop x0 x1 y0 y1 with
+  | error e => rw [hc] at h; cases h
+  | ok r =>
+    rw [hc] at h href
+    injection h with h
+    subst h
+    exact href.2
+
+/-- Every operation of the model that returns a stack returns one the theorems apply to again: the hypotheses
+    `0 < st`, `roi.Within`, `Paged` of the theorems above hold for `ImageStack(...)` (`good_init`) and are preserved by
+    frame slices (index or time bounds), integer indices, `crop_by_pixels`, index tuples and the stack behind `to_kymo`
+    — so they hold for every stack reachable by any program. -/
+theorem good_preserved (s s' : Stack) (H W : Nat) (pages : List Page) (hg : s.Good H W pages) :
+    (∀ f, s.frameItem f = .ok s' → s'.Good H W pages) ∧
+    (∀ x0 x1 y0 y1, s.cropPixels x0 x1 y0 y1 = .ok s' → s'.Good H W pages) ∧
+    (∀ items, s.getitemTuple items = .ok s' → s'.Good H W pages) ∧
+    (∀ a b c, s.sliceTime pages a b c = some (.ok s') → s'.Good H W pages) ∧
+    (∀ x1 y1 x2 y2 w, s.kymoStack x1 y1 x2 y2 w = .ok s' → s'.Good H W pages) := by
+  have hcf : ∀ (t : Stack) (x0 x1 y0 y1 : Option Int) (f : Item),
+      (s.cropPixels x0 x1 y0 y1).bind (·.frameItem f) = .ok t → t.Good H W pages := by
+    intro t x0 x1 y0 y1 f h
+    cases hc : s.cropPixels x0 x1 y0 y1 with
+    | error e => rw [hc] at h; cases h
+    | ok u =>
+      rw [hc] at h
+      exact good_frameItem u t H W pages (good_crop s u H W pages hg x0 x1 y0 y1 hc) f h
+  refine ⟨fun f h => good_frameItem s s' H W pages hg f h,
+    fun x0 x1 y0 y1 h => good_crop s s' H W pages hg x0 x1 y0 y1 h, ?_, ?_, ?_⟩
+  · intro items h
+    cases items with
+    | nil => unfold Stack.getitemTuple at h; cases h
+    | cons f rest =>
+      rw [getitem_tuple_cases] at h
+      match rest, h with
+      | [], h => exact hcf s' _ _ _ _ f h
+      | [r], h =>
+        simp only at h
+        cases hi : interpretCrop r with
+        | error e => rw [hi] at h; cases h
+        | ok rows => rw [hi] at h; exact hcf s' _ _ _ _ f h
+      | [r, c], h =>
+        simp only at h
+        cases hi : interpretCrop r with
+        | error e => rw [hi] at h; cases h
+        | ok rows =>
+          rw [hi] at h
+          cases hj : interpretCrop c with
+          | error e => simp only [Except.bind] at h; rw [hj] at h; cases h
+          | ok cols => simp only [Except.bind] at h; rw [hj] at h; exact hcf s' _ _ _ _ f h
+      | _ :: _ :: _ :: _, h => cases h
+  · intro a b c h
+    unfold Stack.sliceTime at h
+    cases ha : s.timeToIndex pages true a with
+    | none => rw [ha] at h; cases h
+    | some a' =>
+      rw [ha] at h
+      cases hb : s.timeToIndex pages false b with
+      | none => rw [hb] at h; cases h
+      | some b' =>
+        rw [hb] at h
+        simp only [Option.bind_eq_bind, Option.bind_some, Option.some.injEq] at h
+        exact good_frameItem s s' H W pages hg (.slice a' b' c) h
+  · intro x1 y1 x2 y2 w h
+    unfold Stack.kymoStack at h
+    cases hw : kymoWindow x1 y1 x2 y2 w s.roi.height with
+    | error e => rw [hw] at h; cases h
+    | ok v =>
+      obtain ⟨a, b, c, d⟩ := v
+      rw [hw] at h
+      exact good_crop s s' H W pages hg _ _ _ _ h
+
+example : ∃ pages : List Page, Stack.Good ⟨0, pages.length, 1, ⟨0, (5 : Nat), 0, (4 : Nat)⟩⟩ 4 5 pages :=
+  ⟨[⟨1, 2, 2⟩, ⟨2, 3, 3⟩], good_init _ 4 5 (by omega) (by omega)⟩
+
 end Verif.C07
